@@ -2,10 +2,12 @@ package h
 
 import (
 	"bufio"
+	"bytes"
 	"crypto/tls"
 	"fmt"
 	"net"
 	"strings"
+	"time"
 
 	smtp "github.com/emersion/go-smtp"
 )
@@ -93,7 +95,13 @@ func WithScriptedServer(greeting string, script Script, lmtp bool, f func(cs *CS
 				cs.Done = true
 				return
 			}
-			cs.SEnd.Write(out)
+			// "\x00SLEEP\x00" inside an answer: the server pauses six minutes (virtual clock) at that point
+			for i, part := range bytes.Split(out, []byte("\x00SLEEP\x00")) {
+				if i > 0 {
+					time.Sleep(6 * time.Minute)
+				}
+				cs.SEnd.Write(part)
+			}
 		}
 	}()
 	if lmtp {
